@@ -657,6 +657,29 @@ def run(ctx):
             if gold["differing"]:
                 ctx.notes.append(f"{gold['differing']} golden stage dumps of the corpus differ from what the tree under test produces")
 
+    # ---------------------------------------------------------------- names: lowering commutes with renaming a local binder
+    names_cov = {}
+    if not ctx.replay:
+        ok, out = ctx.gv("c11", ["names"])
+        nrows = [r for r in (vlib.read_tsv(os.path.join(ctx.run_dir, "c11.names.tsv")) if ok else []) if len(r) >= 8 and r[1] == "NAMES"]
+        if not nrows:
+            ctx.broken_ties.append(("gv c11 names", (out or "")[-400:]))
+        names_cov = {"programs": len(nrows), "lowering_commutes_with_renaming": sum(r[2] == "ok" for r in nrows),
+                     "functions_compared": sum(int(r[3]) for r in nrows if r[2] == "ok"),
+                     "spellings": sorted({r[4] for r in nrows}),
+                     "cells(use-position/binder-kind)": len({c for r in nrows for c in r[6].split()}),
+                     "rule": "harness/src/namecat.rs: a local binder of every kind spelled like a variant / struct / enum type / function / builtin "
+                             "(declared in the same file or another file of the package), used in every use position; the functions lowered by the "
+                             "real parse_ast_file, with that spelling replaced by a fresh name of the same length, must be the functions lowered "
+                             "from the twin program written with the fresh name"}
+        for r in nrows:
+            if r[2] != "ok":
+                ctx.report({"oracle": "lowering-alpha", "kind": "lowered-differently-under-a-package-level-spelling"},
+                           "CST->AST lowering of a function depends on how a local binder is spelled: renaming the binder (and the uses it binds) "
+                           "to a fresh name of the same length changes more of the lowered function than that name",
+                           {"id": r[0], "binder_spelling": r[4], "fresh_spelling_in_the_twin": r[5], "cells(use-position/binder-kind)": r[6],
+                            "detail": vlib.unesc(r[3])[:1500], "src": vlib.unesc(r[7])})
+
     n_str = sum(v for c, v in lit_classes.items() if c.startswith(('str-', 'mstr-')))
     cov0 = cov
     cov = {
@@ -674,6 +697,7 @@ def run(ctx):
         "tight_rendering": getattr(rnd, "tight_note", ""),
         "u_escape_sweep": usw,
         "corpus_goldens": gold,
+        "names(lowering commutes with renaming a local binder)": names_cov,
         "impl_oracle_failures": len(ctx.violations) + sum(h["count"] for h in ctx.known_hits),
         "model_diffs": (n_eval - n_full - n_lit - usw.get("programs", 0) - n_tie_ok) + (n_str - n_lit_tie)
                        + (usw.get("tie_total", 0) - usw.get("tie_ok", 0)),
